@@ -574,3 +574,40 @@ def t_plain_roundtrip(t):
 
 
 KINDS.update({"plain_roundtrip": t_plain_roundtrip})
+
+
+# ---------------------------------------------------------------- C12 / C13: results as a function of the block only
+def canonical_result(text, opts):
+    import json as _json, copy
+    p = params_for(opts)
+    b = impl.parse_block(text)[0]
+    out = {}
+    with impl.quiet():
+        d, subs = impl.gasol_asm.compute_original_sfs_with_simplifications(b, p)
+    out["spec"] = _json.dumps(d["syrup_contract"], sort_keys=True)
+    out["subs"] = subs
+    with impl.quiet():
+        nb, log, stats = impl.gasol_asm.optimize_asm_block_asm_format(b, p)
+    out["emitted"] = [[i.disasm, i.value] for i in nb.instructions]
+    out["log"] = _json.dumps(log, sort_keys=True)
+    rows = []
+    for row in stats:
+        rows.append({k: v for k, v in row.items() if "time" not in k})
+    out["stats"] = _json.dumps(rows, sort_keys=True, default=str)
+    return out
+
+
+def t_history(t):
+    """result for a block after processing a history of other blocks in this process"""
+    for h in t.get("history", []):
+        try:
+            canonical_result(h, t["opts"])
+        except Exception:
+            pass
+    try:
+        return {"result": canonical_result(t["text"], t["opts"])}
+    except Exception as ex:
+        return {"exception": "%s: %s" % (type(ex).__name__, ex)}
+
+
+KINDS.update({"history": t_history})
